@@ -83,6 +83,13 @@ func c03Run(c *vcore.Ctx) *vcore.Violation {
 		}
 	}
 	script = append(script, "wait", "exit", "0")
+	if src.Bool(1, 4, "lingering_thread") {
+		// another thread of the group is alive (sleeping, no traced calls) while the leader makes its calls:
+		// a kill verdict, by the handler or by the filter, must still end the whole program
+		script = append([]string{"thread", "1", "sleep", "400"}, script...)
+		c.Event("lingering_thread")
+		c.MarkNonTrivial()
+	}
 	hasFatal, hasThread := false, false
 	for _, cl := range calls {
 		if cl.verdict == "kill" || cl.verdict == "filterkill" {
